@@ -14,6 +14,8 @@ import Pysmi.Model.LexCfg
 import Pysmi.Generated.LexTables
 import Pysmi.Model.LR
 import Pysmi.Model.PyStr
+import Pysmi.Model.Imports
+import Pysmi.Generated.Smiv1
 /-!
 Line-protocol driver: one JSON object per input line, one JSON value per output line.
 Imports only the import-free model files and `Lean.Data.Json`.
@@ -588,6 +590,29 @@ def opText (j : Json) : Except String Json := do
   | _ => throw s!"unknown text fn {fn}"
 end Tx
 
+/-! ### op: imports (C16) -/
+namespace Im
+open Pysmi.Imports
+
+def getImports (j : Json) : Except String Imports :=
+  getList (fun e => do
+    let a ← e.getArr?
+    let m ← (a[0]?.getD Json.null).getStr?
+    let syms ← getList (fun x => x.getStr?) (a[1]?.getD Json.null)
+    return (m, syms)) j
+
+def jImports (imp : Imports) : Json :=
+  .arr (imp.map (fun e => Json.arr #[.str e.1, .arr (e.2.map Json.str).toArray])).toArray
+
+def opImports (j : Json) : Except String Json := do
+  let imp ← getImports (← j.getObjVal? "imports")
+  let which ← (← j.getObjVal? "generator").getStr?
+  let consts := if which == "symtable" then Pysmi.Generated.Smiv1.symtableConstImports else Pysmi.Generated.Smiv1.intermediateConstImports
+  let r := genImports Pysmi.Generated.Smiv1.convertImportv2 consts imp
+  return Json.mkObj [("emitted", jImports r.1), ("modules", .arr (r.2.map Json.str).toArray),
+                     ("converted", jImports (convert Pysmi.Generated.Smiv1.convertImportv2 imp))]
+end Im
+
 /-! ### ops: tables (load a parser export) / parse -/
 namespace Pr
 open Pysmi.Py Pysmi.LR
@@ -735,6 +760,7 @@ def handle (j : Json) : Except String Json := do
   | "struct" => St.opStruct j
   | "lex" => Lx.opLex j
   | "text" => Tx.opText j
+  | "imports" => Im.opImports j
   | "put2" => Wr.opPut2 j
   | _ => throw s!"unknown op {op}"
 
